@@ -15,6 +15,7 @@ PROP = {
         "quick": [B("stable"), B("nightly", 0.5, False)],
         "thorough": [B("stable"), B("nightly", 0.5, False)],
     },
+    "volume": {"quick": 2},
     "technique": "property-based testing: exhaustive truth tables of the five mask types over every construction route (array-of-bools model, route independence, A-type versus plain type), "
                  "plus proptest lattice pairs and exhaustive lattice-pair sweeps through cmp*/select of all 34 numeric vector types against the Rust primitive per lane, "
                  "in the SSE2, scalar-math and nightly core-simd builds",
